@@ -123,7 +123,9 @@ def sensitivity(names=None, tier="quick"):
       print("%-40s %-8s %-14s %.0fs %s" % (m["name"], m["prop"], status,
                                           time.time() - t0,
                                           viol[0] if viol else ""))
-      if rc != 1:
+      if rc != 1 and m.get("expect", "killed") != "killed":
+        print("   (expected: %s)" % m["expect"])
+      elif rc != 1:
         missed.append(m["name"])
         print("   stdout tail:", out[-600:].replace("\n", " | "))
         if rc == 2:
